@@ -122,7 +122,7 @@ theorem segment_segsBytes (segs : List (Char ⊕ UInt8)) (h : Good segs []) :
 
 /-- tokens of one segment, as `flush` emits them -/
 def tokOfSeg : Char ⊕ UInt8 → List Tok
-  | .inl c => if isC1 c then (utf8 c).map escOfByte else [.raw c]
+  | .inl c => if staysEscaped c then (utf8 c).map escOfByte else [.raw c]
   | .inr b => [escOfByte b]
 
 theorem flush_eq (bs : List UInt8) : flush bs = (segment bs).flatMap tokOfSeg := by
@@ -131,7 +131,7 @@ theorem flush_eq (bs : List UInt8) : flush bs = (segment bs).flatMap tokOfSeg :=
 
 /-- a segment whose tokens are escapes again (an ill-formed byte, or a C1 control) -/
 def IsEsc : Char ⊕ UInt8 → Prop
-  | .inl c => isC1 c = true
+  | .inl c => staysEscaped c = true
   | .inr _ => True
 
 /-- second pass: `itemOf` on already produced tokens, then `assemble` -/
@@ -188,10 +188,19 @@ theorem pass2_flush_first (U : List UInt8) (toks : List Tok) (acc : List UInt8)
 theorem utf8_c1_high_nat : ∀ n, n < 0xa0 → 0x80 ≤ n → ∀ b ∈ utf8 (Char.ofNat n), 0x80 ≤ b.toNat := by
   decide +kernel
 
-theorem utf8_c1_high {c : Char} (h : isC1 c = true) : ∀ b ∈ utf8 c, 0x80 ≤ b.toNat := by
-  simp only [isC1, Bool.and_eq_true, decide_eq_true_eq] at h
-  have := utf8_c1_high_nat c.toNat (by omega) h.1
-  rwa [Char.ofNat_toNat] at this
+/-- the UTF-8 bytes of a whitespace character beyond ASCII are all ≥ 0x80 (18 characters, by
+evaluation) -/
+theorem utf8_uspace_high_nat : ∀ n ∈ uSpaces, ∀ b ∈ utf8 (Char.ofNat n), 0x80 ≤ b.toNat := by
+  decide +kernel
+
+theorem utf8_c1_high {c : Char} (h : staysEscaped c = true) : ∀ b ∈ utf8 c, 0x80 ≤ b.toNat := by
+  simp only [staysEscaped, Bool.or_eq_true] at h
+  rcases h with h | h
+  · simp only [isC1, Bool.and_eq_true, decide_eq_true_eq] at h
+    have := utf8_c1_high_nat c.toNat (by omega) h.1
+    rwa [Char.ofNat_toNat] at this
+  · have := utf8_uspace_high_nat c.toNat (by simpa using h)
+    rwa [Char.ofNat_toNat] at this
 
 /-- all bytes of escape-producing segments of a high run are ≥ 0x80 -/
 theorem segBytes_high_of_isEsc {x : Char ⊕ UInt8} (hx : SegHigh x) (he : IsEsc x) :
@@ -375,5 +384,80 @@ theorem unquoteToks_idem (U : List UInt8) (hpct : (0x25 : UInt8) ∈ U) (hU : As
     simp only [List.mem_map] at ht
     obtain ⟨t0, _, ht0⟩ := ht
     exact itemOf_fixed U hpct t0 t ht0
+
+/-! ### the output has no raw character that `NON_PRINTABLE_RE` matches -/
+
+/-- a raw character emitted by `flush` is one that is not escaped again -/
+theorem raw_mem_flush {bs : List UInt8} {c : Char} (h : Tok.raw c ∈ flush bs) : staysEscaped c = false := by
+  simp only [flush_eq, List.mem_flatMap] at h
+  obtain ⟨x, _, hx⟩ := h
+  cases x with
+  | inl d =>
+    simp only [tokOfSeg] at hx
+    split at hx
+    · simp only [List.mem_map] at hx
+      obtain ⟨b, _, hb⟩ := hx
+      simp [escOfByte] at hb
+    · rename_i hd
+      simp only [List.mem_singleton, Tok.raw.injEq] at hx
+      subst hx
+      simpa using hd
+  | inr b => simp [tokOfSeg, escOfByte] at hx
+
+theorem raw_mem_assemble {c : Char} (its : List Item) : ∀ (acc : List UInt8),
+    Tok.raw c ∈ assemble its acc → staysEscaped c = false ∨ Item.lit (.raw c) ∈ its := by
+  induction its with
+  | nil => intro acc h; exact .inl (raw_mem_flush h)
+  | cons it r ih =>
+    intro acc h
+    cases it with
+    | lit t =>
+      simp only [assemble, List.mem_append, List.mem_cons] at h
+      rcases h with h | h | h
+      · exact .inl (raw_mem_flush h)
+      · right; rw [← h]; simp
+      · rcases ih _ h with h' | h'
+        · exact .inl h'
+        · exact .inr (List.mem_cons_of_mem _ h')
+    | byte b =>
+      simp only [assemble] at h
+      rcases ih _ h with h' | h'
+      · exact .inl h'
+      · exact .inr (List.mem_cons_of_mem _ h')
+
+/-- when the raw characters of the input are printable, so are those of the output -/
+theorem raw_unquoteToks (U : List UInt8) {ts : List Tok}
+    (h : ∀ c, Tok.raw c ∈ ts → staysEscaped c = false) :
+    ∀ c, Tok.raw c ∈ unquoteToks U ts → staysEscaped c = false := by
+  intro c hc
+  rcases raw_mem_assemble _ _ hc with h' | h'
+  · exact h'
+  · simp only [List.mem_map] at h'
+    obtain ⟨t0, ht0, hit⟩ := h'
+    cases t0 with
+    | raw c0 =>
+      simp only [itemOf] at hit
+      split at hit
+      · cases hit
+      · cases hit; exact h _ ht0
+    | stray => simp [itemOf] at hit
+    | esc h1 h2 =>
+      simp only [itemOf] at hit
+      split at hit
+      · cases hit
+      · split at hit
+        · rename_i hlt
+          have hlt' : (byteOf h1 h2).toNat < 0x80 := by
+            have := UInt8.lt_iff_toNat_lt.1 hlt; simpa using this
+          split at hit
+          · cases hit
+          · cases hit
+            exact staysEscaped_of_lt (by rw [toNat_ofNat_of_lt (by omega)]; exact hlt')
+        · cases hit
+
+/-- the output of the unquoter (on an `escapeRaw` input) is left alone by `escapeRaw` -/
+theorem escapeRaw_unquoteToks (U : List UInt8) (ts : List Tok) :
+    escapeRaw (unquoteToks U (escapeRaw ts)) = unquoteToks U (escapeRaw ts) :=
+  escapeRaw_fixed (raw_unquoteToks U (fun c hc => (raw_mem_escapeRaw hc).2))
 
 end Ural.Quote
